@@ -11,13 +11,18 @@ def _base(S):
     return [trashdirs.VolumeOf().key, trashdirs.HomeTrashDirPath().key]
 
 LEVEL_NOTE = ('run_put/trash_each: every argument processed once, in order, '
-              'with the same options; exit 0 iff no argument failed (argument '
-              'lists of 0..3: BOUNDED length, each argument arbitrary); '
+              'with the same options; exit 0 iff no argument failed - for argument '
+              'lists of EVERY length (loop cut at the invariant of '
+              'Context.trash_each; lists of 0..3 concrete arguments are checked '
+              'again without the cut); '
               'trash_single: exception-free for every argument (incl. names that '
               'cannot be encoded), every Failure preceded by a diagnostic naming '
               'the argument; no attribute of a shared object is assigned while an '
               'argument is processed')
 EXPECTED = [
+    'put/run-any-length/exit-status-0-iff-no-argument-failed',
+    'put/run-any-length/the-call-is-for-this-argument-with-the-same-options',
+    'trashcli.put.context.Context.trash_each/loop0/inv-pres/failed-list-non-empty-iff-an-argument-failed-so-far',
     'put-options/mode-is-the-last-of-f-and-i',
     'put-options/home-fallback-only-with-its-flag',
     'put-options/trash-dir-is-the-last-trash-dir-value',
@@ -42,6 +47,7 @@ def build(S, tier, seed):
     put.trash_file_vc(S)
     put.trash_single_vc(S)
     put.run_put_vc(S)
+    put.run_put_any_length_vc(S)
     options.put_options_vc(S)
 
 
@@ -56,6 +62,7 @@ KF_CLASSES = {}
 
 
 def finalize_args(S, tier, seed):
-    return {'bounded': [{'what': 'run_put VC: argument lists of length 0..3',
+    return {'bounded': [{'what': 'option VC put-options: <= 2 option tokens '
+                                 'and <= 2 operands per argument vector',
                          'counts_as_proof': False}],
             'extra_assumptions': ['argparse is modelled (pyvc/argmodel.py) for argument vectors of the canonical shape options.. [--] operands..; abbreviations, --opt=value, clustered flags and operands before options are outside the model; the option VC is bounded to <= 2 option tokens and <= 2 operands']}
